@@ -200,6 +200,24 @@ func init() {
 			s.End()
 			s.Blocks(1, allHdr)
 		}},
+		Directed{"prefund_then_create", []string{"C17", "C02"}, fam(0), func(s *Script) {
+			// an address receives value and becomes a contract later in the SAME transaction: the new contract owns it
+			s.Blocks(2, allHdr)
+			s.Begin(allHdr)
+			ev, cr := s.Deploy(4, PrefundCreatorRuntime(), 0, "0", 900000)
+			s.expect(OK(ev), "deploy the pre-funding creator")
+			s.End()
+			s.Begin(allHdr)
+			s.expect(OK(s.CallC(5, cr, word(childAddr(cr, 1)), "1000", 900000)), "value forwarded to the address of the child, then the child is created there")
+			s.expect(OK(s.CallC(6, cr, word(childAddr(cr, 2)), "0", 900000)), "the same without value")
+			s.End()
+			s.Begin(allHdr)
+			s.TransferTo(6, childAddr(cr, 3), "500", 0) // the third child's address is funded in an earlier transaction
+			s.expect(OK(s.CallC(5, cr, word(childAddr(cr, 3)), "7", 900000)), "pre-funded natively, funded again in the transaction, then created")
+			s.expect(OK(s.CallC(6, childAddr(cr, 1), nil, "0", cgas)), "the first child works")
+			s.End()
+			s.Blocks(1, allHdr)
+		}},
 		Directed{"evm_quiet_blocks", []string{"C08", "C07", "C17"}, fam(0), func(s *Script) {
 			// contract state exists, and most blocks do not touch it: restarts and crashes after blocks that leave the
 			// EVM state root unchanged
